@@ -125,7 +125,8 @@ class Frame:
                 if ab.variant == 'Expr' and bb.variant == 'BlockStmt':
                     st = bb.fields[0].get('stmts')
                     head, last = st[:-1], st[-1] if st else None
-                    if last is None or last.variant != 'Return' or not all(generated_item(ctx, x) for x in head) or not is_some(last.fields[0].get('arg')):
+                    # ... and only when there is something to declare: a body that needs no declaration stays an expression
+                    if last is None or last.variant != 'Return' or not head or not all(generated_item(ctx, x) for x in head) or not is_some(last.fields[0].get('arg')):
                         return self.fail(path + '/body', 'arrow body converted to something else than {generated declarations; return expr}')
                     ok = self.same(ab.fields[0], last.fields[0].get('arg').fields[0], path + '/body')
                     for i, n in enumerate(a.names):
